@@ -66,3 +66,21 @@ static inline int post_verif_assign_result(verif_out_t out, verif_rhs_t rhs, ks_
   if (g < 32UL && !(IDX < out.n && g == IDX)) ok = ok && ret.buf[g] == out.buf[g];   /* frame: every other cell (also beyond n) is untouched */
   return ok;
 }
+
+/* create_array<0>(data, shape_ptr, dim): the rebuilt operand has exactly the dim extents shape_ptr[0..dim) (every position), in order.
+ * Extents are below 2^63 (reshape reads a "negative" extent as the -1 wildcard). */
+static inline int c13_extents_ok(sv16_t src, unsigned long dim)
+{
+  int ok = 1;
+  for (unsigned long t = 0; t < 8UL; t++) ok = ok && IMPLIES(t < dim, SV_AT(src, t) <= 0x7fffffffffffffffUL);
+  return ok;
+}
+static inline int pre_verif_create_array_shape(sv16_t src, unsigned long dim)
+{ return SV_LEN(src) == 16UL && 1UL <= dim && dim <= 8UL && c13_extents_ok(src, dim); }   /* rank 0 (numbers) go through create_array(T) */
+static inline int post_verif_create_array_shape(sv16_t src, unsigned long dim, ca_obs_t ret)
+{ return ret.ok && ret.dim == dim && SV_LEN(ret.shape) == dim && IMPLIES(g < dim, SV_AT(ret.shape, g) == SV_AT(src, g)); }
+/* the same for dim <= 4 (the quick bounded unit) */
+static inline int pre_verif_create_array_shape4(sv16_t src, unsigned long dim)
+{ return pre_verif_create_array_shape(src, dim) && dim <= 4UL; }
+static inline int post_verif_create_array_shape4(sv16_t src, unsigned long dim, ca_obs_t ret)
+{ return post_verif_create_array_shape(src, dim, ret); }
